@@ -1,5 +1,13 @@
 #!/bin/sh
-# engine self-test, then every claimed check (quick tier); one line per property
+# engine self-test, then every claimed check (quick tier); one line per property.
+# On the unchanged tree nothing may be undecided and the self-test must say "0 wrong": a function that silently leaves
+# the proof is an engine regression (it does not change the exit code of the check, so it is flagged here).
 cd /verif
-./vcheck selftest go 2>&1 | grep -v WARNING | tail -3
-for p in $(python3 -c "import json; print(' '.join(c['property_id'] for c in json.load(open('MANIFEST.json'))['checks']))"); do ./vcheck prop $p "$@" 2>&1 | grep -v WARNING | tail -1; done
+st=$(./vcheck selftest go 2>&1 | grep -v WARNING | tail -3)
+echo "$st"
+echo "$st" | grep -q ", 0 wrong" || echo "RUNALL-ATTENTION: engine self-test is not clean"
+for p in $(python3 -c "import json; print(' '.join(c['property_id'] for c in json.load(open('MANIFEST.json'))['checks']))"); do
+  l=$(./vcheck prop $p "$@" 2>&1 | grep -v WARNING | tail -1)
+  echo "$l"
+  echo "$l" | grep -q " 0 violations, .* 0 undecided" || echo "RUNALL-ATTENTION: $p has violations or undecided functions on this tree"
+done
